@@ -351,6 +351,28 @@ entry! { EOptionMirrorU8, "option<mirror<u8>>", OptionRegion<MirrorRegion<u8>>,
         "read-item(region)" => |s, v, aux| { let i = aux.push(v); s.put(aux.index(i)) },
     ]
 }
+entry! { EOptionVecU32, "option<vec<u32>>", OptionRegion<Vec<u32>>,
+    clone: yes, serde: yes, model: yes,
+    flags: { structural: true },
+    reserve: (|v| v),
+    canon: "&Option<u32>" => |v| v,
+    forms: [
+        "Option<u32>" => |s, v, aux| s.put(*v),
+        "Option<&u32>" => |s, v, aux| s.put(v.as_ref()),
+        "read-item(region)" => |s, v, aux| { let i = aux.push(v); s.put(aux.index(i)) },
+    ]
+}
+entry! { EResultVecVec, "result<vec<u32>,vec<u8>>", ResultRegion<Vec<u32>, Vec<u8>>,
+    clone: yes, serde: yes, model: yes,
+    flags: { structural: true },
+    reserve: (|v| v),
+    canon: "&Result<u32,u8>" => |v| v,
+    forms: [
+        "Result<u32,u8>" => |s, v, aux| s.put(*v),
+        "Result<&u32,&u8>" => |s, v, aux| s.put(v.as_ref()),
+        "read-item(region)" => |s, v, aux| { let i = aux.push(v); s.put(aux.index(i)) },
+    ]
+}
 entry! { EOptionOptionU8, "option<option<mirror<u8>>>", OptionRegion<OptionRegion<MirrorRegion<u8>>>,
     clone: yes, serde: yes, model: yes,
     flags: { json_lossless: false },
@@ -577,6 +599,8 @@ slice_entry!(ESliceTuple, "slice<tuple(mirror<u8>,string)>", SliceRegion<TupleAB
     flags: { stringy: true, structural: true });
 slice_entry!(ESliceResult, "slice<result<string,mirror<u8>>>", SliceRegion<ResultRegion<StringRegion, MirrorRegion<u8>>>, clone: yes, serde: yes, model: yes, reserve: (|v| v),
     flags: { stringy: true, structural: true });
+slice_entry!(ESliceVecU32Vec, "slice<vec<u32>>", SliceRegion<Vec<u32>>, clone: yes, serde: yes, model: yes, reserve: (|v| v),
+    flags: { structural: true });
 slice_entry!(ESliceVecU32, "slice<vec<u32>,optimized>", SliceRegion<Vec<u32>, IO>, clone: yes, serde: yes, model: yes, reserve: (|v| v),
     flags: {});
 slice_entry!(ESliceHuffman, "slice<huffman<u8>>", SliceRegion<HuffmanContainer<u8>>, clone: yes, serde: no, model: no, reserve: none,
